@@ -635,6 +635,42 @@ class Program:
         from .inline import inlined_body
         return inlined_body(self, key)
 
+    def absorbed(self, key):
+        """True when body `key` is the body (or the coroutine body) of a NEW helper function — one that is absent from
+        oracles/known_functions.json — every use of which was inlined into its callers' helper-transparent views. Rules
+        that enumerate bodies skip such a body: its code is examined inside the callers, under their names. A helper with
+        any use the inliner left alone (recursion, size/depth bound, a future awaited elsewhere, a fn item passed as a
+        value) is NOT absorbed and is examined as a body of its own."""
+        ab = self.__dict__.get("_absorbed")
+        if ab is None:
+            from .inline import original_function
+            cand = set()
+            for k, b in self.bodies.items():
+                if b.kind in ("Fn", "AssocFn") and b.crate in ("acmed", "tacd", "acme_common") and not b.exp and not original_function(strip_generics(k)):
+                    cand.add(k)
+            while True:
+                owned = set()
+                for h in cand:
+                    owned.add(h)
+                    if self.bodies[h].raw.get("is_async"):
+                        owned.add(h + "::{closure#0}")
+                residual = set()
+                for k in self.bodies:
+                    if k in owned:
+                        continue
+                    residual |= self.callees_of(self.body(k))
+                drop = {h for h in cand if h in residual or (h + "::{closure#0}") in residual and self.bodies[h].raw.get("is_async")}
+                if not drop:
+                    break
+                cand -= drop
+            ab = set()
+            for h in cand:
+                ab.add(h)
+                if self.bodies[h].raw.get("is_async"):
+                    ab.add(h + "::{closure#0}")
+            self.__dict__["_absorbed"] = ab
+        return key in ab
+
     def must_body(self, key, raw=False):
         b = self.body(key, raw)
         if b is None:
@@ -878,12 +914,21 @@ def try_edges(body, value_locals):
         adt = strip_generics(src.get("adt", ""))
         names = {int(v[0]): v[1] for v in src.get("variants", [])}
         ok, err = [], []
+        listed = set()
         for v, tgt in t["arms"]:
             nm = names.get(v, str(v))
+            listed.add(nm)
             if nm in ("Ok", "Continue", "Some", "Ready"):
                 ok.append(tgt)
             elif nm in ("Err", "Break", "None", "Pending"):
                 err.append(tgt)
+        rest = [n for n in names.values() if n not in listed]
+        if len(rest) == 1 and t["otherwise"] in body.succ[i]:
+            # `if let Err(e) = x { .. } else { .. }`: the otherwise edge is the one remaining variant
+            if rest[0] in ("Ok", "Continue", "Some", "Ready"):
+                ok.append(t["otherwise"])
+            elif rest[0] in ("Err", "Break", "None", "Pending"):
+                err.append(t["otherwise"])
         out.append({"bb": i, "adt": adt, "ok": ok, "err": err, "otherwise": t["otherwise"], "names": names})
     # `if res.is_ok() { .. }` / `is_err` / `is_some` / `is_none`: a bool test of the same value
     for cs in body.calls:
